@@ -41,6 +41,13 @@ def make_src(codes, shape, s, n, f, mode):
         assert codes_of(x) == codes, 'source not representable'
         return x
     x = mk(codes, s, n, f)
+    if f == 0 and s and n >= 3 and shape != '()' and not is2d(shape) and hist_of(n, len(codes), codes[0] % 91) % 4 == 0:
+        # born from a list of unsigned NumPy scalars (its value type is an unsigned one), the codes under test arrive later by a raw
+        # store through equal(): a conversion must not read negative codes through that value type
+        x = Fxp([np.uint64(1)] * len(codes), s, n, f)
+        x.equal(Fxp(np.array(codes, dtype=np.int64), s, n, f, raw=True))
+        assert codes_of(x) == codes
+        return x
     if is2d(shape):
         arr = np.array(codes, dtype=np.int64).reshape(2, -1)
         # the same logical 2-D content in three memory layouts (content-determined): row-major, column-major input, transposed object
